@@ -59,6 +59,8 @@ impl Case for C04Case {
     fn execute(&self) -> Verdict {
         let mut v = Verdict::default();
         let mut w = World::booted(sched(self.sched_variant), self.entropy, false);
+        // in a quarter of the cases every Ctrl-C reaches the runtime twice before the next slice
+        w.double_intr = self.entropy % 4 == 1;
         // a file a program line may LOAD or RUN by itself
         w.disk.insert("G".into(), file_g());
         enter_program(&mut w, &self.base);
